@@ -24,6 +24,7 @@ TABLE = [
     ("added snapshot version sets no longer shadow", "C16"),
     ("guard resolvo::String copy assignment", "C17"),
     ("read favored/locked before consuming", "C17"),
+    ("report a cancellation of one union member", "C12"),
 ]
 
 def sh(cmd, **kw):
